@@ -86,6 +86,18 @@ class _VariationalStrategy(Module, ABC):
     def _clear_cache(self) -> None:
         clear_cache_hook(self)
 
+    def __deepcopy__(self, memo):
+        # The memoized quantities are non-leaf tensors after any call made with autograd enabled (every training step),
+        # and torch refuses to deepcopy those (RuntimeError: Only Tensors created explicitly by the user (graph leaves)
+        # support the deepcopy protocol). They are recomputed on demand, so the copy starts without them
+        # (cf. DefaultPredictionStrategy.__deepcopy__).
+        result = self.__class__.__new__(self.__class__)
+        memo[id(self)] = result
+        for name, value in self.__dict__.items():
+            if name != "_memoize_cache":
+                result.__dict__[name] = deepcopy(value, memo)
+        return result
+
     def _expand_inputs(self, x: Tensor, inducing_points: Tensor) -> Tuple[Tensor, Tensor]:
         """
         Pre-processing step in __call__ to make x the same batch_shape as the inducing points
